@@ -1,7 +1,15 @@
 
+val negb : bool -> bool
+
 type nat =
 | O
 | S of nat
+
+type ('a, 'b) sum =
+| Inl of 'a
+| Inr of 'b
+
+val fst : ('a1 * 'a2) -> 'a1
 
 val snd : ('a1 * 'a2) -> 'a2
 
@@ -24,6 +32,8 @@ module Nat :
  end
 
 val rev : 'a1 list -> 'a1 list
+
+val rev_append : 'a1 list -> 'a1 list -> 'a1 list
 
 val concat : 'a1 list list -> 'a1 list
 
@@ -88,7 +98,13 @@ module Coq_Pos :
 
   val eqb : positive -> positive -> bool
 
+  val coq_Nsucc_double : n -> n
+
+  val coq_Ndouble : n -> n
+
   val coq_lor : positive -> positive -> positive
+
+  val coq_land : positive -> positive -> n
 
   val iter_op : ('a1 -> 'a1 -> 'a1) -> positive -> 'a1 -> 'a1
 
@@ -111,9 +127,13 @@ module N :
 
   val compare : n -> n -> comparison
 
+  val eqb : n -> n -> bool
+
   val leb : n -> n -> bool
 
   val ltb : n -> n -> bool
+
+  val min : n -> n -> n
 
   val div2 : n -> n
 
@@ -124,6 +144,8 @@ module N :
   val modulo : n -> n -> n
 
   val coq_lor : n -> n -> n
+
+  val coq_land : n -> n -> n
 
   val shiftr : n -> n -> n
 
@@ -174,6 +196,42 @@ module Z :
 
   val lnot : z -> z
  end
+
+type err =
+| EEnd
+| EDec
+| ERun
+| EOut
+| EFuel
+
+type 'a prog =
+| Ret of 'a
+| Throw of err
+| Next of (n -> 'a prog)
+| Peek of (n -> 'a prog)
+| Reserve of n * 'a prog
+
+val bind : 'a1 prog -> ('a1 -> 'a2 prog) -> 'a2 prog
+
+val run : 'a1 prog -> n list -> ('a1, err) sum * n list
+
+val frev : 'a1 list -> 'a1 list
+
+val two64 : n
+
+val two63 : n
+
+type major =
+| MU
+| MN
+| MB
+| MT
+| MA
+| MM
+| MTag
+| M7
+
+val mcode : major -> n
 
 val bUFFER_SIZE : n
 
@@ -305,3 +363,75 @@ val bt_init : btime
 type tev = { ev_ts : ts option; ev_store_time : bool; ev_filled : bool }
 
 val bt_add : btime -> tev -> btime
+
+val dEC_BUFFER_SIZE : n
+
+val major_of : n -> major
+
+val major_eqb : major -> major -> bool
+
+val read_type : (major * n) prog
+
+val peek_type : major option prog
+
+val read_be : nat -> n -> n prog
+
+val read_int : n -> n prog
+
+val to_i0 : n -> z
+
+val neg_of : n -> z
+
+val bad_ai : n -> bool
+
+val read_unsigned : n prog
+
+val read_negative : z prog
+
+val read_integer : z prog
+
+val read_bool : bool prog
+
+val read_break : unit prog
+
+val read_bytes : nat -> n -> n list -> n list prog
+
+val reserve_req : n -> n
+
+val read_chunks : major -> nat -> nat -> n list -> n list prog
+
+val read_string : major -> nat -> n -> bool -> n list prog
+
+val read_xstring : major -> nat -> n list prog
+
+val read_bytestring : nat -> n list prog
+
+val read_textstring : nat -> n list prog
+
+val read_xstart : major -> (n * bool) prog
+
+val read_array_start : (n * bool) prog
+
+val read_map_start : (n * bool) prog
+
+val loop_n : unit prog -> nat -> n -> unit prog
+
+val loop_indef : unit prog -> nat -> unit prog
+
+val skip : nat -> nat -> unit prog
+
+val skip_item : nat -> unit prog
+
+type phys = { win : n list; rest : n list; eof : bool }
+
+val ended : phys -> phys
+
+val refill : n -> phys -> phys option
+
+val ensure : n -> phys -> phys option
+
+val run_phys : n -> 'a1 prog -> phys -> ('a1, err) sum * phys
+
+val logical : phys -> n list
+
+val phys_init : n list -> phys
